@@ -150,6 +150,18 @@ def _folded_in(src):
     return f
 
 
+
+def _loop_key(body, map_name, what):
+    """name of the KEY variable of the report loop over `self.<map_name>` — `for (k, v) in self.m.iter()` / `in &self.m` — or ""
+    when the loop runs over the values only (`self.m.values()…`: the message cannot name the key then)"""
+    m = re.search(r"for\s*\((\w+)\s*,\s*\w+\)\s*in\s*(?:&\s*self\.%s\b|self\.%s\.iter\(\))" % (map_name, map_name), body)
+    if m:
+        return m.group(1)
+    if re.search(r"for\s+\w+\s+in\s+self\.%s\.values\(\)" % map_name, body):
+        return ""
+    raise ValueError("%s: expected exactly one match, found 0" % what)
+
+
 def _fmt(src, what):
     """`format!("pre{}post", arg)` -> (pre, post, arg)"""
     m = re.findall(r'format!\(\s*"([^"]*)"\s*,\s*([^)]*?)\s*\)', src, re.S)
@@ -267,7 +279,7 @@ def lint_consts(repo):
     d("unpurgedMsgPre", "String", lean_str(pre))
     d("unpurgedMsgPost", "String", lean_str(post))
     d("sevUnpurged", "String", lean_str(_sev(extract.fn_body(unp, "generate_diags_for_unpurged"), "unpurged severity")))
-    kv = _one(r"for\s*\((\w+)\s*,\s*\w+\)\s*in\s*self\.byte_array_seen\.iter\(\)", extract.fn_body(unp, "generate_diags_for_unpurged"), "unpurged: report loop")
+    kv = _loop_key(extract.fn_body(unp, "generate_diags_for_unpurged"), "byte_array_seen", "unpurged: report loop")
     d("unpurgedMsgArgIsKey", "Bool", "true" if arg == kv else "false", "the name inside the message is the map key (else: the declared spelling)")
     if not re.search(r"children\.first\(\)", extract.fn_body(unp, "handle_method_call")):
         raise ValueError("unpurged: Purge no longer looks at the first argument")
@@ -279,7 +291,7 @@ def lint_consts(repo):
     d("unusedMsgPre", "String", lean_str(pre))
     d("unusedMsgPost", "String", lean_str(post))
     d("sevUnused", "String", lean_str(_sev(cu, "unused severity")))
-    kv = _one(r"for\s*\((\w+)\s*,\s*\w+\)\s*in\s*self\.cur_local_vars\.iter\(\)", cu, "unused: report loop")
+    kv = _loop_key(cu, "cur_local_vars", "unused: report loop")
     d("unusedMsgArgIsKey", "Bool", "true" if arg == kv else "false", "the name inside the message is the map key (else: the declared spelling)")
     d("tagsUnused", "Nat", str(len(re.findall(r"DiagnosticTag::\w+", cu))))
     if not re.search(r"val\.use_count\s*==\s*0", cu):
@@ -333,21 +345,23 @@ def lint_consts(repo):
     hc = extract.fn_body(nam, "handle_check_uppercase_first_char")
     if not re.search(r"!self\.is_underscore_first_char\(id\)\s*&&\s*!self\.is_uppercase_first_char\(id\)", hc):
         raise ValueError("naming: capital rule changed")
-    lv = extract.fn_body(nam, "handle_local_var_decl")
+    # a warning may be built by a private helper: one level of helpers is inlined (the predicates on the first character stay calls)
+    PRED = ("is_underscore_first_char", "is_uppercase_first_char", "is_first_char", "is_overriding_member")
+    lv = extract.inline_helpers(nam, extract.fn_body(nam, "handle_local_var_decl"), skip=PRED)
     if not re.search(r"!self\.is_underscore_first_char\(id\)\s*&&\s*self\.is_uppercase_first_char\(id\)", lv):
         raise ValueError("naming: local rule changed")
     d("namingLocalMsg", "String", lean_str(_one(r'message:\s*"([^"]*)"\.to_string\(\)', lv, "naming local message")))
-    td = extract.fn_body(nam, "handle_type_decl")
+    td = extract.inline_helpers(nam, extract.fn_body(nam, "handle_type_decl"), skip=PRED)
     d("namingTypeMsg", "String", lean_str(_one(r'message:\s*"([^"]*)"\.to_string\(\)', td, "naming type message")))
     d("typePrefix", "Char", "'%s'" % _one(r"!self\.is_first_char\(type_decl\.get_identifier\(\),\s*'(.)'\)", td, "type prefix"))
-    cd = extract.fn_body(nam, "handle_constant_decl")
+    cd = extract.inline_helpers(nam, extract.fn_body(nam, "handle_constant_decl"), skip=PRED)
     d("namingConstMsg", "String", lean_str(_one(r'message:\s*"([^"]*)"\.to_string\(\)', cd, "naming const message")))
     cm = re.search(r"if\s*!self\.is_first_char\(const_decl\.get_identifier\(\),\s*'(.)'\)\s*&&\s*!const_decl\.get_identifier\(\)\.starts_with\(\"([^\"]+)\"\)\s*\{", cd)
     if not cm:
         raise ValueError("naming: constant rule changed")
     d("constPrefix", "Char", "'%s'" % cm.group(1))
     d("constPrefixStr", "String", lean_str(cm.group(2)))
-    d("exemptChar", "Char", "'%s'" % _one(r"c\s*==\s*'(.)'", extract.fn_body(nam, "is_underscore_first_char"), "underscore char"))
+    d("exemptChar", "Char", "'%s'" % _one(r"\b\w+\s*==\s*'(.)'", extract.inline_helpers(nam, extract.fn_body(nam, "is_underscore_first_char")), "underscore char"))
     d("sevNaming", "String", lean_str(_sev(nam, "naming severity")))
     # is_overriding_member = get_member_modifiers().is_override, else false
     om = extract.fn_body(S["utl"], "is_overriding_member")
@@ -439,7 +453,7 @@ def fold_sites(repo):
     def unpurged_reset():
         rs = True
         for ty in ("AstProcedure", "AstFunction"):
-            b = _arm_body(unp, "handle_method_decl", ty)
+            b = extract.inline_helpers(unp, _arm_body(unp, "handle_method_decl", ty), skip=("generate_diags_for_unpurged",))
             rs = rs and "generate_diags_for_unpurged()" in b and "byte_array_seen.clear()" in b
         return rs
     reset("unpurgedMap", unpurged_reset)
